@@ -25,11 +25,10 @@ from harness.props import c05
 
 SHM = "/dev/shm" if os.path.isdir("/dev/shm") else None
 # items the tskit file format declares optional (c/tskit/tables.c: TSK_COL_OPTIONAL and the top-level properties)
+# items whose absence *on its own* the tskit file format accepts (c/tskit/tables.c: TSK_COL_OPTIONAL columns without a paired column, and
+# the top-level properties).  Paired items (x and x_offset, the two index columns) are optional only together: losing one of them must raise.
 OPTIONAL_KEYS = {"metadata", "metadata_schema", "time_units", "reference_sequence/data", "reference_sequence/url",
-                 "reference_sequence/metadata", "reference_sequence/metadata_schema", "mutations/time",
-                 "individuals/parents", "individuals/parents_offset", "edges/metadata", "edges/metadata_offset",
-                 "migrations/metadata", "migrations/metadata_offset", "indexes/edge_insertion_order",
-                 "indexes/edge_removal_order"} | {t + "/metadata_schema" for t in (
+                 "reference_sequence/metadata", "reference_sequence/metadata_schema", "mutations/time"} | {t + "/metadata_schema" for t in (
                      "nodes", "edges", "sites", "mutations", "migrations", "individuals", "populations")}
 
 
@@ -75,13 +74,37 @@ def cols(t):
     return store_of(t)
 
 
+def ragged_wellformed(c):
+    """independent of the library's own loader: every <x>_offset item of the stored object is a non-decreasing sequence from 0 to the length
+    of its <x> item, one entry more than the table has rows (all offset columns of one table have the same length)"""
+    import struct
+    nrows = {}
+    for key, (typ, raw) in c.items():
+        if not key.endswith("_offset"):
+            continue
+        tsz = 8 if typ in (6, 7, 9) else 4
+        n = len(raw) // tsz
+        offs = struct.unpack("<%d%s" % (n, "Q" if tsz == 8 else "I"), raw[:n * tsz])
+        datakey = key[:-len("_offset")]
+        if datakey not in c:
+            return "offset column %s without its data column" % key
+        dt, draw = c[datakey]
+        dsz = {0: 1, 1: 1, 2: 2, 3: 2, 4: 4, 5: 4, 8: 4, 6: 8, 7: 8, 9: 8}[dt]
+        if n == 0 or offs[0] != 0 or offs[-1] != len(draw) // dsz or any(offs[i] > offs[i + 1] for i in range(n - 1)):
+            return "ragged column %s is not well formed: offsets %s over %d elements" % (datakey, list(offs)[:8], len(draw) // dsz)
+        tab = key.split("/")[0]
+        if nrows.setdefault(tab, n) != n:
+            return "offset columns of table %s disagree on the number of rows" % tab
+    return None
+
+
 def outcome(path, mode, base_cols, base_ts_ok):
     """load a (corrupted) file; returns (outcome, detail)"""
     try:
         if mode == "tc":
             x = tskit.TableCollection.load(path)
         elif mode == "ts":
-            x = tskit.load(path).dump_tables()
+            x = tskit.load(path)
         elif mode == "skip_tables":
             x = tskit.TableCollection.load(path, skip_tables=True)
         elif mode == "skip_ref":
@@ -98,15 +121,22 @@ def outcome(path, mode, base_cols, base_ts_ok):
                 wf.write(data)
             with os.fdopen(r, "rb") as rf:
                 x = tskit.TableCollection.load(rf) if mode == "pipe_tc" else tskit.load(rf)
-            if x is not None and mode == "pipe_ts":
-                x = x.dump_tables()
     except Exception as e:       # any Python exception counts as "raises"; a crash kills the worker instead
         return "raise", type(e).__name__
     if x is None:
         return "diff_bad", "load returned None"
+    if mode in ("ts", "pipe_ts"):
+        # load has returned a TreeSequence: from here on an exception is not a rejection of the file but an unusable object
+        try:
+            x = x.dump_tables()
+        except Exception as e:
+            return "diff_bad", "tskit.load returned a tree sequence whose tables cannot be copied out: %s" % type(e).__name__
     c = cols(x)
     if c == base_cols[mode]:
         return "same", ""
+    bad = ragged_wellformed(c)
+    if bad:
+        return "diff_bad", bad
     # a different object: is it at least well formed, i.e. does it round-trip through dump and load?
     try:
         fd, p2 = tempfile.mkstemp(dir=SHM)
@@ -233,7 +263,7 @@ def make_faults(rng, data, lay, quick):
     for it in lay["items"]:
         tsz = {0: 1, 1: 1, 2: 2, 3: 2, 4: 4, 5: 4, 8: 4, 6: 8, 7: 8, 9: 8}[it["type"]]
         if tsz >= 4 and it["al"] >= 2:
-            for q in range(min(it["al"] - 1, (40 if it["key"].startswith("indexes/") else 6) if quick else 60)):
+            for q in range(min(it["al"] - 1, (40 if it["key"].startswith("indexes/") or it["key"].endswith("_offset") else 6) if quick else 60)):
                 o1 = it["as"] + q * tsz
                 a1 = data[o1:o1 + tsz]
                 a2 = data[o1 + tsz:o1 + 2 * tsz]
@@ -273,9 +303,18 @@ def run():
                                                  dict(left=0, right=5, parent=4, child=2), dict(left=0, right=10, parent=4, child=3)],
                                           sites=[dict(pos=2, anc=0), dict(pos=7, anc=1)],
                                           muts=[dict(site=0, node=3, der=1, parent=-1, time=-1), dict(site=1, node=2, der=0, parent=-1, time=-1)]))
+                # ... and a small pedigree: the ragged individuals/parents column with non-trivial offsets
+                for par_ in ([], [0], [0, 1]):
+                    t.individuals.add_row(parents=par_, location=[1.5] * len(par_), metadata=b"i%d" % len(par_))
+                t.nodes.individual = np.array([0, 1, 2, -1, -1], dtype=np.int32)
                 valid = True
             else:
                 t, valid = c05.random_collection(rng, valid=True)
+            if len(files) != 1 and len(t.individuals) < 3:
+                # every stored object carries a small pedigree, so that the ragged parents column has non-trivial offsets
+                base_n = len(t.individuals)
+                for par_ in ([], [base_n], [base_n, base_n + 1]):
+                    t.individuals.add_row(parents=par_, location=[0.5] * len(par_))     # (the table may carry a JSON schema: no metadata)
             if not t.has_index():
                 t.build_index()
             if len(t.nodes) < 2:
